@@ -85,6 +85,8 @@ impl Drop for SlotFuture {
 }
 
 struct Caller {
+    /// the key this caller asked for
+    key: u64,
     fut: Option<Pin<Box<Fut>>>,
     result: (String, u64),
     rt: Option<tokio::runtime::Runtime>,
@@ -192,6 +194,7 @@ impl InflightRunner {
                 self.callers.insert(
                     c,
                     Caller {
+                        key: k,
                         fut: Some(Box::pin(fut)),
                         result: ("pending".into(), 0),
                         rt: Some(rt),
@@ -256,7 +259,11 @@ impl InflightRunner {
             if let Some(f) = cal.fut.as_mut() {
                 if let Poll::Ready(r) = f.as_mut().poll_inner(&mut cx) {
                     cal.result = match r {
-                        Ok(Some(e)) => ("val".into(), e.value().ver + if e.value().key == *e.key() { 0 } else { 1_000_000 }),
+                        // an answer is foreign if the entry handed to the caller is not an entry of the key it asked for
+                        Ok(Some(e)) => (
+                            "val".into(),
+                            e.value().ver + if e.value().key == cal.key && *e.key() == cal.key { 0 } else { 1_000_000 },
+                        ),
                         Ok(None) => ("none".into(), 0),
                         Err(e) => match e.kind() {
                             ErrorKind::TaskCancelled => ("cancelled".into(), 0),
